@@ -20,6 +20,7 @@ func init() {
 		Explanation: "A blocked query is answered locally and never forwarded. Decided: (D1) stage order of the request handler: request filtering precedes the upstream stage, which precedes response filtering, which precedes log/statistics; (D2) the upstream stage resolves only when no response has been set; (D3) a filtered result always sets the response before request filtering returns, and every blocked-response constructor returns a non-nil message; " +
 			"(D4) who may reach an upstream: every call site of an exchange primitive in the module is classified, and from the request-filtering stage the only reachable ones are the block-page host lookup (whose question name comes from the configured block host, not from the query) and the hash-prefix lookup (C19); (D5) the blocking-mode switch covers exactly the declared modes and maps each to its documented constructor (NXDOMAIN, REFUSED, null IP, custom IP, rule IPs/null IP); the validator covers the same set; " +
 			"(D6) allow before block, first match wins: the checker list has the documented order, the check loop returns at the first matched result, the block engine is consulted only after the allow engine did not match (or is off), and an allow match never consults the block engine; (D7) protection gates every non-rewrite checker and rule lists additionally require filtering to be enabled; the per-request protection flag comes from the server's protection status; the rule engines are swapped, never removed, while serving. " +
+			"(D9) the client's name and tags — what $client / $ctag restricted rules match on — are handed to the filter for every found persistent client, not only for those with own settings. " +
 			"Not decided: which names a rule set matches (urlfilter semantics), the exact synthetic RR content per mode and query type, values of per-client settings (C04), schedule instants (C18).",
 		RuleText:    "Stage list and checker list read from the slice literals in SSA; path guards; static reachability; enum/switch agreement from go/types constants.",
 		Assumptions: []string{"urlfilter.DNSEngine.MatchRequest semantics (external)", "dnsproxy calls the request handler once per admitted request"},
@@ -160,6 +161,7 @@ func runC01(c *Ctx) {
 	c01Modes(c)
 	c01Checkers(c)
 	c01Gates(c)
+	clientIdentityApplied(c, "C01-D9")
 	// D8: an allow-listed query's upstream answer is delivered unchanged
 	if skipped, fn := skipReasons(p); fn != nil {
 		r.Check(skipped["NotFilteredAllowList"], "C01-D8", "allow-listed-skips-response-filtering", p.FnPos(fn),
